@@ -119,10 +119,10 @@ def lenAgrees (names : List String) (args : List Nat) (prog : List Shape.FieldP)
      | .mul c (.const k) => countAgrees names args prog c cnt && k == Field.elemSize elem
      | .remFloor k => cnt == .rest && k == Field.elemSize elem
      | _ => false)
-  | .arrayV cnt segs =>
+  | .arrayV cnt segs computed =>
     (match l with
-     | .mul c (.compute _ sargs) => countAgrees names args prog c cnt && segsWithin args prog sargs segs
-     | .one (.compute _ sargs) => cnt == .lit 1 && segsWithin args prog sargs segs
+     | .mul c (.compute _ sargs) => computed && countAgrees names args prog c cnt && segsWithin args prog sargs segs
+     | .one (.compute _ sargs) => !computed && cnt == .lit 1 && segsWithin args prog sargs segs
      | _ => false)
   | .arrayL cnt hw item =>
     (match l with
